@@ -512,7 +512,10 @@ class InterpretedFunctionsRemover(engines.engine.Engine, CompilerMixin):
                         raise NotImplementedError
                 else:
                     # in case we do not know the values of the if
-                    if len(l1) != 0:
+                    # (a function without any known value is unknown for every argument)
+                    if len(l1) != 0 and all(
+                        ie.interpreted_function() in if_known for ie in ifuns
+                    ):
                         new_conds.append((t, em.Not(em.And(l1))))
                     if case == ElementKind.DURATION_LOWER:
                         lower = em.Real(Fraction(1, 1))
